@@ -27,7 +27,7 @@ META = {
 
 PROFILE = {"n_states": (2, 5), "n_events": (1, 3), "extra_transitions": (1, 6), "p_multi_event": 0.2,
            "p_guard": 0.25, "p_validator": 0.0, "p_conv": 0.2, "p_inline": 0.3, "p_deco": 0.15,
-           "providers": ["sm", "model", "l0"], "p_nested": 0.35, "nested_max": 2, "allow": True, "yields": 2}
+           "providers": ["sm", "model", "l0"], "p_nested": 0.35, "nested_max": 2, "allow": True, "yields": 2, "p_unknown_nested": 0.08}
 
 
 def owns(rule, flags):
